@@ -117,6 +117,37 @@ def _covariance(fw: int, fb: int, iw: int, ib: int) -> bool:
     return result(ok, exp)
 
 
+ARG_BASES = ("Int", "String")
+
+
+def _arg_invariance(fw: int, fb: int, iw: int, ib: int, extra: int) -> bool:
+    """
+    pre: 0 <= fw < len(WRAPS) and 0 <= iw < len(WRAPS) and 0 <= fb < 2 and 0 <= ib < 2 and 0 <= extra <= 3
+    pre: shard_of(fw)
+    post: _
+    """
+    fws, iws = pick(fw, WRAPS), pick(iw, WRAPS)
+    fbs, ibs = pick(fb, ARG_BASES), pick(ib, ARG_BASES)
+    EX = concrete_int(extra, 0, 3)
+    with untraced():
+        from py_gql.schema import Argument, String
+        w = {"Int": Int, "String": String}
+        atype_obj, atype_iface = build_type(w, fws, fbs), build_type(w, iws, ibs)
+        iface = InterfaceType("Node", [Field("f", Int, args=[Argument("a", atype_iface)])])
+        # the implementing field may declare ADDITIONAL arguments only when they are not required (spec 3.6 type validation 2.5)
+        more = {0: [], 1: [Argument("more", Int)], 2: [Argument("more", NonNullType(Int))], 3: [Argument("more", NonNullType(Int), default_value=1)]}[EX]
+        impl = ObjectType("Impl", [Field("f", Int, args=[Argument("a", atype_obj)] + more)], interfaces=[iface])
+        schema = Schema(ObjectType("Query", [Field("impl", impl), Field("node", iface)]))
+        # spec: "that argument must accept the same type (invariant)"
+        exp = (fws == iws and fbs == ibs) and EX not in (2, 3)      # June 2018: an additional argument "must not be of a non-nullable type"
+        try:
+            schema.validate()
+            got = True
+        except SchemaValidationError:
+            got = False
+    return result(got == exp, exp)
+
+
 # ------------------------------------------------------------------ labelled violations
 BAD_NAMES = ("__x", "1a", "a-b", "", "a\n", "é")
 DEPTHS = ("", "!", "[", "[!", "![!")
@@ -414,6 +445,14 @@ CONDITIONS = [
         symbolic={"fw,fb": "choice: object field type", "iw,ib": "choice: interface field type"},
         assumptions=["oracle: IsValidImplementationFieldType transcribed from spec section 3.6"],
         witness={"fw": 1, "fb": 0, "iw": 0, "ib": 2},
+    ),
+    Cond(
+        name="arg_invariance", fn=_arg_invariance, quick=120, thorough=300, per_path=30, shards_quick=11, shards_thorough=11,
+        bound="argument of an interface field vs the same argument on the implementing field: every pair of wrapper lists of <= 3 wrappers over {Int, String} (22 x 22) x an additional argument on the implementing "
+              "field (none / optional / required / required with default): valid iff the types are identical and no additional argument has a non-null type",
+        symbolic={"fw,fb": "choice: implementing argument type", "iw,ib": "choice: interface argument type", "extra": "choice: additional argument"},
+        assumptions=["oracle: spec section 3.6 object type validation 2.5 (arguments invariant; additional arguments must not be required)"],
+        witness={"fw": 1, "fb": 0, "iw": 1, "ib": 0, "extra": 1},
     ),
     Cond(
         name="rules", fn=_rules, quick=150, thorough=600, per_path=30, shards_quick=15, shards_thorough=30,
